@@ -1188,6 +1188,15 @@ class Interp:
 
     def ev_UnaryOp(self, n, env):
         v = self.eval(n.operand, env)
+        if type(v).__name__ == 'MaskedSel':
+            if isinstance(n.op, ast.USub):          # -(a[m]) == (-a)[m]
+                return type(v)(self.binop(ast.Sub(), 0.0, v.src), v.mask)
+            if isinstance(n.op, ast.UAdd):
+                return v
+            from .models import resolve_masked
+            v = resolve_masked(self, v)
+            if v is None:
+                raise Unsupported('unary operator on a boolean-mask selection of symbolic shape')
         if isinstance(n.op, ast.Not):
             tv = self.truth_term(v)
             if isinstance(tv, bool):
